@@ -1,21 +1,35 @@
-//! C15 — append-only and dry-run: recorded storage traffic (`MemBackend` op log) of the real public
+//! C15 — append-only and dry-run: recorded storage traffic (`MemBackend` op logs) of the real public
 //! repository operations vs. the Lean command table (`Model/CommandTable.lean`).
 //!
-//!   c15 ao <cmd,cmd,…>        a sequence of commands on a repository that holds two snapshots and was then
-//!                             marked append-only (`apply_config(set_append_only = true)`)
-//!   c15 dry <damage> <cmd>    one command with its dry-run flag on a NOT append-only repository
-//!                             (damage: none | index | pack — one index file / one data pack removed first)
-//! observation: `ok <cmd>=<result>:<kinds>,…` where kinds = sorted set of w.<type> / r.<type> seen by the backend
-//! (`-` = no write and no removal).
-//! Direct oracles: while the repository is append-only every snapshot / index / pack file that existed before a
-//! command still exists with identical bytes after it, and a refused command issued no storage operation;
-//! a dry-run leaves the whole store byte-identical.
-use crate::repo::{MemBackend, MemSource, RepoHandle, SrcEntry, Store, ft_name};
+//!   c15 ao <cmd,cmd,…>            = `c15 aox plain <cmd,…>`
+//!   c15 aox <setup> <cmd,cmd,…>   a sequence of commands on a repository that holds two snapshots and was then marked
+//!                                 append-only (`apply_config(set_append_only = true)`).  setup:
+//!                                   plain  one in-memory store          hc     hot/cold pair (two stores, both recorded)
+//!                                   dmg    plain, every data pack lost and the index repaired BEFORE the flag was set
+//!                                          (both snapshots need repair: `repair snapshots` has real work)
+//!                                   hcdmg  the same on a hot/cold pair
+//!   c15 dry <damage> <cmd>        one command with its dry-run flag on a NOT append-only repository
+//!   c15 dryt <damage> <cmd>       the same, and afterwards the NON-dry twin of the command on the same repository: the
+//!                                 observation carries what the twin wrote / removed, i.e. the dry-run oracle was meaningful
+//!                                 damage: none | index | pack | dmg | hc | hcdmg | hcpack | hcindex | hcmiss | hcmissp
+//!                                   index   one index file removed         pack    the largest (data) pack removed
+//!                                   hcmiss  hot store lost a snapshot and an index file      hcmissp  hot store lost a tree pack
+//! observation `ao/aox`: `ok <cmd>=<result>:<kinds>,…`; kinds = sorted set of w.<type> / r.<type> seen by the backend(s)
+//! (`-` = no write and no removal; both stores of a hot/cold pair are merged).  On damaged setups the observation is
+//! coarse: `<cmd>=refused|ran:<kinds without w.snapshot>` (how much a command repairs / whether a read fails depends on
+//! which snapshot an earlier backup healed; the property does not).
+//! observation `dry`: `ok <cmd>=<kinds>`;  `dryt`: `ok <cmd>=<kinds> twin=<kinds of the non-dry twin>`.
+//! Direct oracles (independent of the table): while the repository is append-only every snapshot / index / pack file
+//! that existed before a command still exists with identical bytes after it IN EVERY STORE; a command refused with
+//! AppendOnly (and the refused `delete_snapshots` part of `merge --delete`) issued no storage operation; a dry-run
+//! leaves every store byte-identical and its op log empty of applied operations; read-only operations (check, restore,
+//! prune_plan, prepare_restore, the accessor / listing batch `readonly`) issue no write and no removal.
+use crate::repo::{LogOp, MemBackend, MemSource, RepoHandle, SrcEntry, Store, ft_name};
 use crate::util::{Rng, Stats, errkind, guarded};
-use rustic_core::repofile::{FileType, SnapshotFile};
+use rustic_core::repofile::{FileType, Node, SnapshotFile};
 use rustic_core::{
-    BackupOptions, CheckOptions, ConfigOptions, KeyOptions, PruneOptions, RepairIndexOptions, RepairSnapshotsOptions,
-    RewriteOptions, RusticResult, StringList,
+    BackupOptions, CheckOptions, ConfigOptions, Credentials, KeyOptions, LocalDestination, LsOptions, PruneOptions, RepairIndexOptions,
+    RepairSnapshotsOptions, Repository, RestoreOptions, RewriteOptions, RewriteTreesOptions, RusticResult, StringList,
 };
 use std::collections::BTreeSet;
 use std::path::PathBuf;
@@ -36,8 +50,32 @@ fn do_backup(h: &RepoHandle, src: &MemSource, dry: bool) -> RusticResult<Snapsho
     repo.archive(&opts, src, SnapshotFile::default(), &[PathBuf::from(crate::repo::SRC_ROOT)])
 }
 
-fn kinds(be: &MemBackend) -> String {
-    let set: BTreeSet<String> = be.log().iter().map(|o| format!("{}.{}", if o.write { "w" } else { "r" }, ft_name(o.tpe))).collect();
+/// the mutating calls seen by every store of the repository (cold first, then hot)
+fn logs(h: &RepoHandle) -> Vec<LogOp> {
+    let mut v = h.be.log();
+    if let Some(hot) = &h.hot {
+        v.extend(hot.log());
+    }
+    v
+}
+
+fn clear_logs(h: &RepoHandle) {
+    h.be.clear_log();
+    if let Some(hot) = &h.hot {
+        hot.clear_log();
+    }
+}
+
+fn stores(h: &RepoHandle) -> Vec<(&'static str, Store)> {
+    let mut v = vec![("cold", h.be.store())];
+    if let Some(hot) = &h.hot {
+        v.push(("hot", hot.store()));
+    }
+    v
+}
+
+fn kinds(h: &RepoHandle) -> String {
+    let set: BTreeSet<String> = logs(h).iter().map(|o| format!("{}.{}", if o.write { "w" } else { "r" }, ft_name(o.tpe))).collect();
     if set.is_empty() { "-".into() } else { set.into_iter().collect::<Vec<_>>().join("+") }
 }
 
@@ -51,6 +89,8 @@ struct Ctx {
     n_backup: u32,
     last_src: u32,
     added_key: Option<rustic_core::repofile::KeyId>,
+    /// an oracle that tripped inside a command (reported instead of the observation)
+    oracle: Option<String>,
 }
 
 fn res_str<T>(r: &RusticResult<T>) -> String {
@@ -60,7 +100,67 @@ fn res_str<T>(r: &RusticResult<T>) -> String {
     }
 }
 
-/// run one command; `dry` forces the dry-run flag where the command has one
+/// the accessor / listing / reading methods of `Repository` (the reviewed read-only list next to the command table)
+fn read_only_batch(h: &RepoHandle) -> RusticResult<()> {
+    use rustic_core::repofile::SnapshotId;
+    let repo = h.open_oc()?;
+    let _ = repo.config_id()?;
+    let _ = repo.infos_files()?;
+    let _ = repo.infos_index()?;
+    let _ = repo.config().append_only;
+    let _ = repo.key_id().is_some();
+    let _ = repo.key();
+    let ids: Vec<SnapshotId> = repo.list::<SnapshotId>()?.collect();
+    let snaps = repo.get_all_snapshots()?;
+    let snaps = repo.update_all_snapshots(snaps)?;
+    repo.warm_up(ids.iter().copied())?;
+    if let Some(s) = snaps.first() {
+        let hex = s.id.to_hex();
+        let _ = repo.get_snapshots(&[hex.as_str()])?;
+        let _ = repo.get_snapshot_from_str("latest", |_| true)?;
+        let _ = repo.cat_file(FileType::Snapshot, hex.as_str())?;
+        let _: Vec<SnapshotId> = repo.find_ids::<SnapshotId, _>(&[hex.as_str()])?.collect();
+        let _ = repo.get_file::<SnapshotFile>(&s.id)?;
+    }
+    let _ = repo.relevant_copy_snapshots(|_| true, &snaps)?;
+    let repo = repo.to_indexed()?;
+    for s in &snaps {
+        let tree = repo.get_tree(&s.tree)?;
+        let _ = repo.cat_tree(s.id.to_hex().as_str(), |_| true)?;
+        let _ = repo.cat_blob(rustic_core::repofile::BlobType::Tree, s.tree.to_hex().as_str())?;
+        let _ = repo.get_index_entry(&s.tree)?;
+        let root = repo.node_from_snapshot_path(&format!("{}", s.id), |_| true)?;
+        for item in repo.ls(&root, &LsOptions::default())? {
+            let (_, node) = item?;
+            if node.is_file() {
+                let of = repo.open_file(&node)?;
+                let _ = repo.read_file_at(&of, 1, 10)?;
+                let mut sink = Vec::new();
+                repo.dump(&node, &mut sink)?;
+            }
+        }
+        let _ = repo.node_from_path(s.tree, std::path::Path::new("src/common"))?;
+        drop(tree);
+    }
+    let _ = repo.drop_index();
+    Ok(())
+}
+
+/// `prepare_restore` of the latest snapshot into a fresh temporary directory
+fn restore_plan(h: &RepoHandle, dry: bool) -> RusticResult<()> {
+    let repo = h.open_oc()?.to_indexed()?;
+    let mut snaps = repo.get_all_snapshots()?;
+    snaps.sort();
+    let Some(s) = snaps.last() else { return Ok(()) };
+    let node = repo.node_from_snapshot_path(&format!("{}", s.id), |_| true)?;
+    let ls = repo.ls(&node, &LsOptions::default())?;
+    let tmp = tempfile::tempdir().expect("tempdir");
+    let dest = LocalDestination::new(tmp.path().join("out").to_str().unwrap(), true, !node.is_dir())?;
+    let _plan = repo.prepare_restore(&RestoreOptions::default(), ls, &dest, dry)?;
+    Ok(())
+}
+
+/// run one command token `<name>[.<flag>]*`; the flag `dry` sets the dry-run flag where the command has one
 fn run_cmd(cx: &mut Ctx, cmd: &str) -> Option<String> {
     let h = cx.h.clone();
     let parts: Vec<&str> = cmd.split('.').collect();
@@ -123,11 +223,40 @@ fn run_cmd(cx: &mut Ctx, cmd: &str) -> Option<String> {
                 });
                 res_str(&r)
             } else {
+                // `excl`: a rewrite that really changes trees (every `only<variant>` file is dropped)
+                let mut topts = RewriteTreesOptions::default();
+                if has("excl") {
+                    topts.excludes.globs = vec!["!only*".to_string()];
+                }
                 let r = h.open_oc().and_then(|r| r.to_indexed()).and_then(|repo| {
                     let snaps = repo.get_all_snapshots()?;
-                    repo.rewrite_snapshots_and_trees(snaps, &opts, &Default::default())
+                    repo.rewrite_snapshots_and_trees(snaps, &opts, &topts)
                 });
                 res_str(&r)
+            }
+        }
+        "merge" => {
+            // the two oldest snapshots are merged; `delete`: like the CLI's `merge --delete` the merged snapshots are
+            // removed afterwards through `delete_snapshots` (a second library call)
+            let r = h.open_oc().and_then(|r| r.to_indexed()).and_then(|repo| {
+                let mut snaps = repo.get_all_snapshots()?;
+                snaps.sort();
+                snaps.truncate(2);
+                let _ = repo.merge_snapshots(&snaps, &|a: &Node, b: &Node| a.meta.mtime.cmp(&b.meta.mtime), SnapshotFile::default())?;
+                Ok((repo, snaps))
+            });
+            match r {
+                Err(e) => errkind(&e),
+                Ok((repo, snaps)) if has("delete") => {
+                    let ids: Vec<_> = snaps.iter().map(|s| s.id).collect();
+                    let n0 = logs(&h).len();
+                    let r = repo.delete_snapshots(&ids);
+                    if r.is_err() && logs(&h).len() != n0 {
+                        cx.oracle = Some("refused-delete-touched-storage".into());
+                    }
+                    res_str(&r)
+                }
+                Ok(_) => "ok".into(),
             }
         }
         "config" => {
@@ -161,6 +290,7 @@ fn run_cmd(cx: &mut Ctx, cmd: &str) -> Option<String> {
             _ => return None,
         },
         "check" => res_str(&h.open_oc().and_then(|repo| repo.check(CheckOptions::default().read_data(true)))),
+        "restore" if has("plan") => res_str(&restore_plan(&h, dry)),
         "restore" => {
             let r = h.open_oc().and_then(|r| r.to_indexed()).and_then(|repo| {
                 let snaps = repo.get_all_snapshots()?;
@@ -171,6 +301,7 @@ fn run_cmd(cx: &mut Ctx, cmd: &str) -> Option<String> {
             });
             res_str(&r)
         }
+        "readonly" => res_str(&read_only_batch(&h)),
         "hotcold" => {
             if has("packs") {
                 res_str(&h.open_oc().and_then(|repo| repo.repair_hotcold_packs(dry)))
@@ -190,21 +321,121 @@ fn run_cmd(cx: &mut Ctx, cmd: &str) -> Option<String> {
             })();
             res_str(&r)
         }
+        // `init` over the existing repository (refused: a config file exists)
+        "init" => res_str(
+            &Repository::new(&RepoHandle::default_opts(), &h.backends_oc())
+                .and_then(|r| r.init(&Credentials::Masterkey(h.key.clone()), &KeyOptions::default(), &ConfigOptions::default())),
+        ),
+        // `init_with_config` over the existing repository with the same master key and the current config minus the
+        // append-only flag: NOT guarded — the config file is replaced
+        "reinit" => {
+            let r = h.open_oc().and_then(|repo| {
+                let mut cfg = repo.config().clone();
+                cfg.append_only = None;
+                Repository::new(&RepoHandle::default_opts(), &h.backends_oc())?.init_with_config(
+                    &Credentials::Masterkey(h.key.clone()),
+                    &KeyOptions::default(),
+                    cfg,
+                )
+            });
+            res_str(&r)
+        }
+        "init_hot" => res_str(&h.open_oc().and_then(|repo| repo.init_hot())),
         _ => return None,
     })
 }
 
-fn setup() -> RusticResult<Ctx> {
-    let (h, _) = RepoHandle::init_oc(MemBackend::new(), None, &ConfigOptions::default())?;
-    do_backup(&h, &source(1), false)?;
-    do_backup(&h, &source(2), false)?;
-    Ok(Ctx { h, n_backup: 0, last_src: 2, added_key: None })
+fn is_read_only(cmd: &str) -> bool {
+    matches!(cmd.split('.').next(), Some("check" | "restore" | "readonly" | "prune_plan"))
 }
 
-fn exec_ao(seq: &str) -> String {
-    let mut cx = match setup() {
+fn data_packs(h: &RepoHandle) -> RusticResult<Vec<rustic_core::Id>> {
+    let repo = h.open_oc()?;
+    let tree: BTreeSet<rustic_core::Id> = rustic_core::verif::repair_hotcold::tree_packs(&repo)?.into_iter().map(|p| *p).collect();
+    Ok(h.be.ids(FileType::Pack).into_iter().filter(|id| !tree.contains(id)).collect())
+}
+
+/// two backups on a fresh repository (`hot`: a hot/cold pair), then the damage
+fn setup(hot: bool, damage: &str) -> Result<Ctx, String> {
+    let hot_be = hot.then(|| MemBackend::named("hot"));
+    let (h, _) = RepoHandle::init_oc(MemBackend::named("cold"), hot_be, &ConfigOptions::default()).map_err(|e| format!("{}@setup", errkind(&e)))?;
+    do_backup(&h, &source(1), false).map_err(|e| format!("{}@setup", errkind(&e)))?;
+    do_backup(&h, &source(2), false).map_err(|e| format!("{}@setup", errkind(&e)))?;
+    let both = |f: &dyn Fn(&MemBackend)| {
+        f(&h.be);
+        if let Some(x) = &h.hot {
+            f(x);
+        }
+    };
+    match damage {
+        "none" => {}
+        "index" => {
+            if let Some(id) = h.be.ids(FileType::Index).first().copied() {
+                both(&|b| b.del_raw(FileType::Index, &id));
+            }
+        }
+        "pack" => {
+            // the largest pack is a data pack (data packs live in the cold store only)
+            let mut packs: Vec<_> = h.be.ids(FileType::Pack).into_iter().map(|id| (h.be.get(FileType::Pack, &id).map_or(0, |b| b.len()), id)).collect();
+            packs.sort();
+            if let Some((_, id)) = packs.last() {
+                h.be.del_raw(FileType::Pack, id);
+            }
+        }
+        "dmg" => {
+            // every data pack is lost; `repair index` (the repository is not append-only yet) drops them from the index:
+            // every file content of both snapshots is now missing -> both snapshots need `repair snapshots`
+            for id in data_packs(&h).map_err(|e| format!("{}@setup-dmg", errkind(&e)))? {
+                h.be.del_raw(FileType::Pack, &id);
+            }
+            h.open_oc().and_then(|repo| repo.repair_index(&RepairIndexOptions::default(), false)).map_err(|e| format!("{}@setup-dmg", errkind(&e)))?;
+        }
+        "hcmiss" => {
+            let hot = h.hot.as_ref().ok_or("bad-op")?;
+            for t in [FileType::Snapshot, FileType::Index] {
+                if let Some(id) = hot.ids(t).first().copied() {
+                    hot.del_raw(t, &id);
+                }
+            }
+        }
+        "hcmissp" => {
+            let hot = h.hot.as_ref().ok_or("bad-op")?;
+            if let Some(id) = hot.ids(FileType::Pack).first().copied() {
+                hot.del_raw(FileType::Pack, &id);
+            }
+        }
+        _ => return Err("bad-op".into()),
+    }
+    Ok(Ctx { h, n_backup: 0, last_src: 2, added_key: None, oracle: None })
+}
+
+fn idx_of(t: u8) -> usize {
+    crate::repo::FILE_TYPES.iter().position(|ft| crate::repo::ft_idx(*ft) == t).unwrap_or(0)
+}
+
+/// coarse result on damaged setups (the same mapping is applied by the Lean driver to the table's expectation)
+fn coarse_result(cmd: &str, res: &str) -> &'static str {
+    // `prune` = prune_plan + prune: on a damaged repository the (read-only) plan may fail before the guard is reached
+    let prune_err = cmd.split('.').next() == Some("prune") && res.starts_with("err:");
+    if res == "err:AppendOnly" || ((cmd == "forget" || cmd == "merge.delete") && res == "err:Repository") || prune_err { "refused" } else { "ran" }
+}
+
+fn drop_kinds(k: &str, drop: &[&str]) -> String {
+    let v: Vec<&str> = k.split('+').filter(|x| *x != "-" && !drop.contains(x)).collect();
+    if v.is_empty() { "-".to_string() } else { v.join("+") }
+}
+
+fn exec_ao(setup_kind: &str, seq: &str) -> String {
+    let (hot, damaged) = match setup_kind {
+        "plain" => (false, false),
+        "hc" => (true, false),
+        "dmg" => (false, true),
+        "hcdmg" => (true, true),
+        _ => return "bad-op".into(),
+    };
+    let mut cx = match setup(hot, if damaged { "dmg" } else { "none" }) {
         Ok(c) => c,
-        Err(e) => return format!("{}@setup", errkind(&e)),
+        Err(e) => return e,
     };
     let mut o = ConfigOptions::default();
     o.set_append_only = Some(true);
@@ -217,113 +448,168 @@ fn exec_ao(seq: &str) -> String {
             Ok(r) => r.config().append_only == Some(true),
             Err(e) => return format!("{}@open", errkind(&e)),
         };
-        let before = cx.h.be.store();
-        cx.h.be.clear_log();
+        let before = stores(&cx.h);
+        clear_logs(&cx.h);
         let Some(res) = run_cmd(&mut cx, cmd) else { return "bad-op".into() };
-        let k = kinds(&cx.h.be);
-        let after = cx.h.be.store();
+        if let Some(o) = cx.oracle.take() {
+            return format!("oracle-fail:{o}-{cmd}");
+        }
+        let k = kinds(&cx.h);
+        let after = stores(&cx.h);
         if append_only {
-            for (key, bytes) in protected(&before) {
-                match after.get(&key) {
-                    None => return format!("oracle-fail:append-only-removed-{}-by-{cmd}", ft_name(crate::repo::FILE_TYPES[idx_of(key.0)])),
-                    Some(b) if *b != bytes => return format!("oracle-fail:append-only-replaced-{}-by-{cmd}", ft_name(crate::repo::FILE_TYPES[idx_of(key.0)])),
-                    _ => {}
+            for ((name, b), (_, a)) in before.iter().zip(after.iter()) {
+                for (key, bytes) in protected(b) {
+                    let t = ft_name(crate::repo::FILE_TYPES[idx_of(key.0)]);
+                    match a.get(&key) {
+                        None => return format!("oracle-fail:append-only-removed-{t}-by-{cmd}@{name}"),
+                        Some(x) if *x != bytes => return format!("oracle-fail:append-only-replaced-{t}-by-{cmd}@{name}"),
+                        _ => {}
+                    }
                 }
             }
             if res.starts_with("err:AppendOnly") && k != "-" {
                 return format!("oracle-fail:refused-after-touching-storage-{cmd}");
             }
         }
+        let is_dry = cmd.split('.').any(|f| f == "dry");
+        if is_dry && before != after {
+            return format!("oracle-fail:dry-run-changed-the-store-{cmd}");
+        }
+        if is_read_only(cmd) && k != "-" {
+            return format!("oracle-fail:read-only-operation-wrote-{cmd}");
+        }
         // appending data (packs, index files) is always allowed: for commands without dry-run flag only removals and
         // writes of config / key / snapshot files are part of the observation; while the repository is not append-only
-        // the property is silent (only `forget` and `config.*` are predictable enough to be compared)
-        let is_dry = cmd.split('.').any(|f| f == "dry");
-        let shown = if !append_only && !(cmd == "forget" || cmd.starts_with("config")) {
-            "*".to_string()
-        } else if is_dry {
-            k.clone()
+        // prune / repair index / repair snapshots --delete are state dependent (`*`)
+        let first = cmd.split('.').next().unwrap_or("");
+        let unpredictable = matches!(first, "prune" | "repair_index") || cmd.starts_with("repair_snap.delete");
+        let exact = if is_dry { k.clone() } else { drop_kinds(&k, &["w.pack", "w.index"]) };
+        if damaged {
+            if !append_only && !(first == "config" || first == "reinit") {
+                out.push(format!("{cmd}=*:*"));
+            } else {
+                out.push(format!("{cmd}={}:{}", coarse_result(cmd, &res), drop_kinds(&exact, &["w.snapshot"])));
+            }
         } else {
-            let v: Vec<&str> = k.split('+').filter(|x| *x != "w.pack" && *x != "w.index" && *x != "-").collect();
-            if v.is_empty() { "-".to_string() } else { v.join("+") }
-        };
-        out.push(format!("{cmd}={res}:{shown}"));
+            let shown = if !append_only && unpredictable { "*".to_string() } else { exact };
+            out.push(format!("{cmd}={res}:{shown}"));
+        }
     }
     format!("ok {}", out.join(","))
 }
 
-fn idx_of(t: u8) -> usize {
-    crate::repo::FILE_TYPES.iter().position(|ft| crate::repo::ft_idx(*ft) == t).unwrap_or(0)
-}
-
-fn exec_dry(damage: &str, cmd: &str) -> String {
-    let mut cx = match setup() {
-        Ok(c) => c,
-        Err(e) => return format!("{}@setup", errkind(&e)),
+fn exec_dry(damage: &str, cmd: &str, twin: bool) -> String {
+    let (hot, dmg) = match damage {
+        "hc" => (true, "none"),
+        "hcdmg" => (true, "dmg"),
+        "hcmiss" | "hcmissp" => (true, damage),
+        "hcpack" => (true, "pack"),
+        "hcindex" => (true, "index"),
+        d => (false, d),
     };
-    match damage {
-        "none" => {}
-        "index" => {
-            if let Some(id) = cx.h.be.ids(FileType::Index).first() {
-                cx.h.be.del_raw(FileType::Index, id);
-            }
-        }
-        "pack" => {
-            // the largest pack is a data pack
-            let mut packs: Vec<_> = cx.h.be.ids(FileType::Pack).into_iter().map(|id| (cx.h.be.get(FileType::Pack, &id).map_or(0, |b| b.len()), id)).collect();
-            packs.sort();
-            if let Some((_, id)) = packs.last() {
-                cx.h.be.del_raw(FileType::Pack, id);
-            }
-        }
-        _ => return "bad-op".into(),
-    }
-    let before = cx.h.be.store();
-    cx.h.be.clear_log();
+    let mut cx = match setup(hot, dmg) {
+        Ok(c) => c,
+        Err(e) => return e,
+    };
+    let before = stores(&cx.h);
+    clear_logs(&cx.h);
     let Some(res) = run_cmd(&mut cx, cmd) else { return "bad-op".into() };
-    let k = kinds(&cx.h.be);
-    if cx.h.be.store() != before {
+    let k = kinds(&cx.h);
+    if stores(&cx.h) != before {
         return format!("oracle-fail:dry-run-changed-the-store-{cmd}");
     }
     let _ = res; // a dry run may fail on a damaged repository; the property is about storage operations only
-    format!("ok {cmd}={k}")
+    if !twin {
+        return format!("ok {cmd}={k}");
+    }
+    // the non-dry twin on the same (unchanged) repository: what the dry run would have done
+    let Some(twin_cmd) = cmd.strip_suffix(".dry").map(str::to_string).or_else(|| cmd.contains(".dry.").then(|| cmd.replacen(".dry", "", 1))) else {
+        return "bad-op".into();
+    };
+    clear_logs(&cx.h);
+    // the twin uses the same tag / source numbering as the dry run did
+    cx.n_backup = 0;
+    cx.last_src = 2;
+    let Some(tres) = run_cmd(&mut cx, &twin_cmd) else { return "bad-op".into() };
+    let tk = kinds(&cx.h);
+    // how many packs / index files a backup appends depends on what is already stored
+    let tk = if twin_cmd.starts_with("backup") { drop_kinds(&tk, &["w.pack", "w.index"]) } else { tk };
+    format!("ok {cmd}={k} twin={tres}:{tk}")
 }
 
 pub fn exec(toks: &[&str]) -> String {
     let owned: Vec<String> = toks.iter().map(|s| s.to_string()).collect();
     guarded(move || match (owned.first().map(String::as_str), owned.len()) {
-        (Some("ao"), 2) => exec_ao(&owned[1]),
-        (Some("dry"), 3) => exec_dry(&owned[1], &owned[2]),
+        (Some("ao"), 2) => exec_ao("plain", &owned[1]),
+        (Some("aox"), 3) => exec_ao(&owned[1], &owned[2]),
+        (Some("dry"), 3) => exec_dry(&owned[1], &owned[2], false),
+        (Some("dryt"), 3) => exec_dry(&owned[1], &owned[2], true),
         _ => "bad-op".into(),
     })
 }
 
-pub const AO_CMDS: [&str; 30] = [
+pub const AO_CMDS: [&str; 44] = [
     "backup.new", "backup.same", "backup.dry.new", "forget", "prune", "prune.instant", "prune.all", "prune_plan", "repair_index",
     "repair_index.dry", "repair_index.readall", "repair_snap.delete", "repair_snap.delete.dry", "repair_snap.keep", "repair_snap.keep.dry",
     "rewrite.forget", "rewrite.forget.dry", "rewrite.keep", "rewrite.keep.dry", "rewtrees.forget", "rewtrees.keep", "rewtrees.keep.dry",
     "config.tg", "config.ev", "config.ao1", "config.none", "check", "restore", "hotcold", "hotcold.packs.dry",
+    // added: merge (with and without deleting the merged snapshots), tree rewrites that change trees, read-only batch,
+    // restore planning with its dry-run flag, (re-)initialisation over the existing repository, hot/cold repair
+    "merge", "merge.delete", "rewtrees.forget.excl", "rewtrees.keep.excl", "rewtrees.forget.excl.dry", "rewtrees.keep.excl.dry", "readonly",
+    "restore.plan", "restore.plan.dry", "init", "init_hot", "hotcold.dry", "hotcold.packs", "key.del",
 ];
+/// expensive (scrypt) or state-resetting tokens: chosen rarely
+pub const RARE_CMDS: [&str; 2] = ["key.add", "reinit"];
 pub const DRY_CMDS: [&str; 8] = [
     "backup.dry.new", "backup.dry.same", "repair_index.dry", "repair_index.readall.dry", "repair_snap.delete.dry", "repair_snap.keep.dry",
     "rewrite.forget.dry", "rewtrees.forget.dry",
 ];
+/// every dry-run flag on a repository where the non-dry twin has work to do: (damage, dry command)
+pub const DRY_TWINS: [(&str, &str); 36] = [
+    ("none", "backup.dry.new"), ("none", "backup.dry.same"), ("none", "rewrite.forget.dry"), ("none", "rewrite.keep.dry"),
+    ("none", "rewtrees.forget.dry"), ("none", "rewtrees.keep.dry"), ("none", "rewtrees.forget.excl.dry"), ("none", "rewtrees.keep.excl.dry"),
+    ("none", "restore.plan.dry"),
+    ("pack", "repair_index.dry"), ("pack", "repair_index.readall.dry"), ("index", "repair_index.dry"), ("index", "repair_index.readall.dry"),
+    ("dmg", "repair_snap.delete.dry"), ("dmg", "repair_snap.keep.dry"), ("dmg", "backup.dry.same"),
+    ("hc", "backup.dry.new"), ("hc", "backup.dry.same"), ("hc", "rewrite.forget.dry"), ("hc", "rewrite.keep.dry"),
+    ("hc", "rewtrees.forget.excl.dry"), ("hc", "rewtrees.keep.excl.dry"), ("hc", "hotcold.dry"), ("hc", "hotcold.packs.dry"),
+    ("hc", "restore.plan.dry"),
+    ("hcdmg", "repair_snap.delete.dry"), ("hcdmg", "repair_snap.keep.dry"), ("hcpack", "repair_index.dry"), ("hcindex", "repair_index.dry"),
+    ("hcmiss", "hotcold.dry"), ("hcmissp", "hotcold.packs.dry"), ("hcmissp", "hotcold.dry"),
+    ("none", "hotcold.dry"), ("none", "hotcold.packs.dry"), ("none", "repair_index.dry"), ("none", "repair_snap.delete.dry"),
+];
 
 pub fn generate(thorough: bool, rng: &mut Rng, ops: &mut Vec<String>, stats: &mut Stats) {
-    // every command once on its own, right after the repository was marked append-only
-    for c in AO_CMDS {
-        ops.push(format!("c15 ao {c}"));
-        stats.hit("op.ao-single");
+    // every command once on its own, right after the repository was marked append-only — on every setup
+    for setup in ["plain", "hc", "dmg", "hcdmg"] {
+        for c in AO_CMDS.iter().chain(RARE_CMDS.iter()).chain(["copy", "key.add,key.del"].iter()) {
+            // scrypt: key.add costs ~0.5 s; once per setup in the quick tier is enough
+            ops.push(format!("c15 aox {setup} {c}"));
+            stats.hit(format!("op.ao-single.{setup}"));
+        }
+        // the allowed path of every destructive command: append-only switched off first
+        for c in ["forget", "prune", "repair_index", "repair_snap.delete", "rewrite.forget", "rewtrees.forget", "rewtrees.forget.excl", "merge.delete", "config.tg"] {
+            ops.push(format!("c15 aox {setup} config.ao0,{c}"));
+            ops.push(format!("c15 aox {setup} config.ao0,config.ao1,{c}"));
+            stats.hit(format!("op.ao-off-single.{setup}"));
+        }
+        ops.push(format!("c15 aox {setup} reinit,forget"));
     }
-    ops.push("c15 ao copy".into());
-    ops.push("c15 ao config.ao0,forget".into());
     // random sequences; append-only is switched off (and on again) inside some of them
-    let n = if thorough { 6000 } else { 500 };
-    for _ in 0..n {
+    let n = if thorough { 6000 } else { 520 };
+    for i in 0..n {
+        let setup = match i % 8 {
+            0 | 1 | 2 | 3 => "plain",
+            4 | 5 => "hc",
+            6 => "dmg",
+            _ => "hcdmg",
+        };
         let len = rng.range(2, 7);
         let mut seq: Vec<String> = Vec::new();
         let mut forgets = 0;
+        let mut doubles = 0;
         for _ in 0..len {
-            let c = match rng.below(14) {
+            let c = match rng.below(16) {
                 0 => "config.ao0".to_string(),
                 1 => "config.ao1".to_string(),
                 2 if forgets < 2 => {
@@ -331,19 +617,32 @@ pub fn generate(thorough: bool, rng: &mut Rng, ops: &mut Vec<String>, stats: &mu
                     "forget".to_string()
                 }
                 3 => "copy".to_string(),
+                4 if rng.chance(1, if thorough { 4 } else { 8 }) => rng.pick(&RARE_CMDS).to_string(),
                 _ => rng.pick(&AO_CMDS).to_string(),
+            };
+            // `rewrite.keep` doubles the number of snapshots: at most three per sequence
+            let c = if c.contains(".keep") && !c.contains("repair") && !c.contains(".dry") {
+                doubles += 1;
+                if doubles > 3 { "merge".to_string() } else { c }
+            } else {
+                c
             };
             stats.hit(format!("cmd.{}", c.split('.').next().unwrap()));
             seq.push(c);
         }
-        ops.push(format!("c15 ao {}", seq.join(",")));
-        stats.hit("op.ao-seq");
+        ops.push(format!("c15 aox {setup} {}", seq.join(",")));
+        stats.hit(format!("op.ao-seq.{setup}"));
     }
     // every dry-run flag on intact and damaged repositories
-    for d in ["none", "index", "pack"] {
+    for d in ["none", "index", "pack", "dmg", "hc", "hcdmg"] {
         for c in DRY_CMDS {
             ops.push(format!("c15 dry {d} {c}"));
             stats.hit("op.dry");
         }
+    }
+    // … and with the non-dry twin, where the twin's work is determined by the scenario
+    for (d, c) in DRY_TWINS {
+        ops.push(format!("c15 dryt {d} {c}"));
+        stats.hit("op.dry-with-twin");
     }
 }
